@@ -22,8 +22,14 @@ Sup == atoi(IOEnv.SUPSTEPS)
 EvCap == atoi(IOEnv.EVCAP)
 
 VARIABLES i, s0
+(* initial valuations: integers -B..B; an array variable (pr.kinds[k] = "arr", programs of proggen.array_live_program)
+   starts with every tuple of pr.ncells integer cells *)
+RangeOf(pr, k) == IF "kinds" \in DOMAIN pr /\ pr.kinds[k] = "arr" THEN [1..pr.ncells -> (-B)..B] ELSE (-B)..B
+RECURSIVE StatesN(_, _)
+StatesN(pr, m) == IF m = 0 THEN {<<>>} ELSE {Append(q, w) : q \in StatesN(pr, m - 1), w \in RangeOf(pr, m)}
+StatesOf(pr) == IF "kinds" \in DOMAIN pr THEN StatesN(pr, pr.nv) ELSE [1..pr.nv -> (-B)..B]
 Init == /\ i \in DOMAIN Pairs
-        /\ s0 \in {q \in [1..Pairs[i].nv -> (-B)..B] : AllHold(Pairs[i].init, q)}
+        /\ s0 \in {q \in StatesOf(Pairs[i]) : AllHold(Pairs[i].init, q)}
 Next == UNCHANGED <<i, s0>>
 Spec == Init /\ [][Next]_<<i, s0>>
 
